@@ -37,6 +37,8 @@ Rows == {
   R("int", "float:7", "7"), R("int", "bool:true", "1"), R("int", "str:abc", "issue"), R("int", "str:1.5", "issue"),
   R("float", "str:1.5", "1.5"), R("float", "str:2e3", "2000"), R("float", "int:7", "7"), R("float", "float:0.25", "0.25"),
   R("float", "float32:0.5", "0.5"), R("float", "str:abc", "issue"),
+  \* a Go struct as input: fields are read by name, promoted fields of embedded structs included (absent behind a nil embedded pointer)
+  R("record", "gostruct:plain", "abc|7"), R("record", "gostruct:embedded", "abc|7"), R("record", "gostruct:embedded-ptr", "abc|7"), R("record", "gostruct:embedded-nil-ptr", "|7"),
   \* time
   R("time", "str:rfc3339", T0), R("time", "time:native", T0), R("time", "int:unix", T0), R("time", "int64:unix", T0),
   R("time", "str:2020-01-02", "issue"), R("time", "str:garbage", "issue"), R("time", "float:unix", "issue"),
@@ -61,10 +63,11 @@ Rows == {
   R("string+coercer:upper", "str:hello", "HELLO"), R("string+coercer:upper", "int:42", "42"),
   R("bool+coercer:negate", "bool:true", "false"), R("bool+coercer:negate", "str:on", "false"),
   R("float+coercer:plus100", "float:0.25", "100.25"), R("float+coercer:plus100", "str:1.5", "101.5"),
+  R("ptr-slice-int+coercer:split", "str:3;1;2", "[3 1 2]"),
   R("ptr-int+coercer:plus100", "int:7", "107"), R("ptr-int+coercer:plus100", "str:7", "107"), R("ptr-int-beside-coercer", "str:7", "7") }
 
 CoercerDests == {"int+coercer:plus100", "int-beside-coercer", "slice-int+coercer:split", "time+coercer:plus1h", "string+coercer:upper",
-                 "bool+coercer:negate", "float+coercer:plus100", "ptr-int+coercer:plus100", "ptr-int-beside-coercer"}
+                 "bool+coercer:negate", "float+coercer:plus100", "ptr-int+coercer:plus100", "ptr-int-beside-coercer", "ptr-slice-int+coercer:split"}
 IsCoercerRow(d) == d \in CoercerDests
 
 \* the table is a function of (dest, src)
